@@ -79,6 +79,20 @@ Fixpoint prestep (n : nat) (e : aedge) (cury : Z) : aedge * Z :=
   | S k => if cury <? 0 then prestep k (step e cury) (cury + 1) else (e, cury)
   end.
 
+(* the same for curve edges without visiting every row: while cury < dot16_to_dot2(next_y) a step only adds
+   slope_x, so those rows are taken in one jump; a row that reaches next_y is a real step *)
+Fixpoint prestep_fast (fuel : nat) (e : aedge) (cury : Z) : aedge * Z :=
+  match fuel with
+  | O => prestep (Z.to_nat (- cury)) e cury
+  | S k =>
+      if cury <? 0 then
+        let ny := dot16_to_dot2 (e_nexty e) in
+        if ny <=? cury then prestep_fast k (step e cury) (cury + 1)
+        else let n := Z.min (- cury) (ny - cury) in
+             prestep_fast k (with_fullx e (e_fullx e + n * e_slope e)) (cury + n)
+      else (e, cury)
+  end.
+
 (* ---- the rasteriser state ---- *)
 Record rast := mk_rast {
   r_w4 : Z; r_h4 : Z;                       (* width and height in dot2 *)
@@ -133,7 +147,10 @@ Definition add_edge (r : rast) (swap : bool) (sx sy ex ey : Z) (curve : bool) (c
         0 0 shift (e_count e) w (den =? 0)
     else
       mk_aedge x2 y2 (Z.quot ((x2 - x1) * 16384) (y2 - y1)) fullx 0 0 0 0 0 0 0 0 0 0 w false in
-  let '(e, cury) := if y1 <? 0 then prestep (Z.to_nat (- y1)) e y1 else (e, y1) in
+  (* a straight edge steps by a constant: stepping it -y1 times is one multiplication (prestep_line below) *)
+  let '(e, cury) := if y1 <? 0 then
+                      (if curve then prestep_fast 200 e y1 else (with_fullx e (e_fullx e + (- y1) * e_slope e), 0))
+                    else (e, y1) in
   let r' := mk_rast (r_w4 r) (r_h4 r) top bottom left right in
   if (y1 <? 0) && (y2 <=? cury) && negb (e_err e) then r' (r_starts r) (r_active r)
   else r' ((cury, e) :: r_starts r) (r_active r).
